@@ -33,7 +33,8 @@ func c04Profiles(rng *rand.Rand, tier string) []Profile {
 	}
 	var ps []Profile
 	for i := 0; i < n; i++ {
-		p := Profile{Steps: 8 + rng.Intn(10), DeleteBias: 0.8, ForkBias: 0.9, RestartBias: 0.06}
+		// StartBias: starts of the node on its database with a foreign genesis block / changed configuration (`restartg`)
+		p := Profile{Steps: 8 + rng.Intn(10), DeleteBias: 0.8, ForkBias: 0.9, RestartBias: 0.06, StartBias: 0.07}
 		switch i % 7 {
 		case 4, 6:
 			p.RestartBias = 0.3 // restart-heavy: every guard of the property is evaluated right after restarts
@@ -152,6 +153,13 @@ func (p Prop) Classify(c corr.Case, out []string) string {
 			has["delat-"+w[0]] = true
 		case "restart", "till", "twin", "gap", "lasth":
 			has[op] = true
+		case "restartg":
+			a := args(c.Ops[i])
+			k := a["v"]
+			if k == "genesis" {
+				k = "genesis-" + w[0] // refused (err) or accepted (ok)
+			}
+			has["restartg-"+k] = true
 		case "sctx":
 			has["sctx"] = true
 		case "pv":
@@ -177,7 +185,8 @@ func (p Prop) Classify(c corr.Case, out []string) string {
 		return ""
 	}
 	var keys []string
-	for _, k := range []string{"tieBreakApplied", "tieBreakReverted", "doubleForging", "identical", "discard", "wouldSync", "err", "del-refused", "delat-err", "restart", "restart-guard", "sctx", "till", "twin", "pv-ok", "pv-sync-fin", "gap"} {
+	for _, k := range []string{"tieBreakApplied", "tieBreakReverted", "doubleForging", "identical", "discard", "wouldSync", "err", "del-refused", "delat-err", "restart", "restart-guard", "sctx", "till", "twin", "pv-ok", "pv-sync-fin", "gap",
+		"restartg-genesis-err", "restartg-genesis-ok", "restartg-cfg", "restartg-chainid"} {
 		if has[k] {
 			keys = append(keys, k)
 		}
